@@ -3,6 +3,7 @@ import KcpVerif.Lemmas.KcpWire
 import KcpVerif.Lemmas.KcpAdmit
 import KcpVerif.Lemmas.KcpCwnd
 import KcpVerif.Lemmas.KcpClosed
+import KcpVerif.Lemmas.KcpCwndArith
 /-!
 C04 — window discipline: bounded buffering, truthful window, backpressure.
 
@@ -297,6 +298,20 @@ theorem C04_cwnd_le_rmt (k : Kcp) (oldUna : U32) (hch : (cwndOnAck k oldUna).cwn
     (cwndOnAck k oldUna).cwnd ≤ k.rmt_wnd := by
   have := cwndOnAck_changed k oldUna hch
   rwa [cwndOnAck_rmt] at this
+
+/-- the arithmetic of the ack-driven growth is sound in EVERY reachable state (no side condition at all:
+any operations, any arguments): `rmt_wnd < 2^16`, `1 ≤ mss ≤ mtuLimit`; hence the divisor of
+`mss*mss/incr` is not zero (the model's `BitVec` division would silently return 0 where Go panics — it
+never gets there), the guard `mss > 0` is always true, and `(cwnd+1)*mss` does not wrap whenever the
+growth step runs (`cwnd < rmt_wnd`). -/
+theorem C04_cwnd_arith (conv snd0 rcv0 : U32) (ops : List Op) :
+    let k := run (start conv snd0 rcv0) ops
+    k.rmt_wnd.toNat < 2^16 ∧ 1 ≤ k.mss.toNat ∧ k.mss.toNat ≤ mtuLimit ∧
+    (if k.incr < k.mss then k.mss else k.incr) ≠ 0 ∧ k.mss > 0 ∧
+    (k.cwnd < k.rmt_wnd → ((k.cwnd + 1) * k.mss).toNat = (k.cwnd.toNat + 1) * k.mss.toNat) := by
+  intro k
+  have h : CwOK k := run_cw _ ops (start_cw conv snd0 rcv0)
+  exact ⟨h.1, h.2.1, h.2.2, cwGrow_divisor_pos k h, cwGrow_mss_pos k h, cwGrow_no_wrap k h⟩
 
 /-! ### non-vacuity: a concrete run across the 32-bit wrap with forged and out-of-order input -/
 
